@@ -56,3 +56,5 @@ def run(ctx):
     # depends on C06's rule
     from ..rules_ast import persistent_state_rule
     ctx.guard(persistent_state_rule, ctx, "C05.own-pattern")
+    from ..rules_misc import helper_rules
+    ctx.guard(helper_rules, ctx, "C05.helpers")
